@@ -183,7 +183,11 @@ func VC19_Template() {
 		attrs = append(attrs, 0x40, packet.OriginAttr, c19Sym(3, 1), c19Sym(4, 0))
 	}
 	if mask&2 != 0 {
-		attrs = append(attrs, 0x40, packet.ASPathAttr, c19Sym(5, 4), c19Sym(6, 2), c19Sym(7, 1), 0xfd, 0xe8)
+		if vParam("asn4") == 1 {
+			attrs = append(attrs, 0x40, packet.ASPathAttr, c19Sym(5, 6), c19Sym(6, 2), c19Sym(7, 1), 0, 0, 0xfd, 0xe8)
+		} else {
+			attrs = append(attrs, 0x40, packet.ASPathAttr, c19Sym(5, 4), c19Sym(6, 2), c19Sym(7, 1), 0xfd, 0xe8)
+		}
 	}
 	if mask&4 != 0 {
 		attrs = append(attrs, 0x40, packet.NextHopAttr, c19Sym(8, 4), 10, 0, 9, 1)
@@ -195,7 +199,10 @@ func VC19_Template() {
 		attrs = append(attrs, 0x40, packet.AtomicAggrAttr, c19Sym(10, 0))
 	}
 	var body []byte
-	if vParam("withdraw") == 1 {
+	ap := vParam("addpath") == 1
+	if vParam("withdraw") == 1 && ap {
+		body = append(body, 0, c19Sym(0, 7), 0, 0, 0, 5, c19Sym(1, 16), 10, 1)
+	} else if vParam("withdraw") == 1 {
 		body = append(body, 0, c19Sym(0, 3), c19Sym(1, 16), 10, 1)
 	} else {
 		body = append(body, 0, c19Sym(0, 0))
@@ -203,6 +210,9 @@ func VC19_Template() {
 	body = append(body, 0, c19Sym(2, uint8(len(attrs))))
 	body = append(body, attrs...)
 	if vParam("nlri") == 1 {
+		if ap {
+			body = append(body, 0, 0, 0, 9)
+		}
 		body = append(body, c19Sym(11, 24), 10, 2, 3)
 	}
 	c19Run(body)
